@@ -362,7 +362,7 @@ func round12(c *Ctx, r *Report, prop string) {
 		c11r28(c, r)
 	case "C14":
 		c14r25(c, r)
-		// c14r26(c, r) -- armed together with the repair D115
+		c14r26(c, r)
 	case "C15":
 		c15r32(c, r)
 		c15r33(c, r)
